@@ -29,7 +29,7 @@ KV_TEXT = {
     "shortdbg": "x:?", "err": "{k}:err = e", "sval": "{k}:sval = x", "serde": "{k}:serde = x",
     "ref=7": "ref = 7", "ref=0": "ref = 0", "ref=max": "ref = 4294967295", "ref=07": "ref = 07", "ref=x": "ref = x",
     "ref:?=x": "ref:? = x", "ref=over": "ref = 4294967296", "ref=str": 'ref = "7"', "ref=neg": "ref = -7",
-    "ref=hex": "ref = 0x7", "ref=suffixed": "ref = 7u32", "strref": '{k} = "[ref: 5] v"',
+    "ref=hex": "ref = 0x7", "ref=suffixed": "ref = 7u32", "ref=strkey": '"ref" = 7', "strref": '{k} = "[ref: 5] v"',
 }
 # shapes that do not compile against the log crate as available offline (feature kv only) or are not valid Rust
 KV_NOCOMPILE = {"err", "sval", "serde", "ref=over", "ref=07", "ref=neg", "bytestr"}      # b"x": [u8; 1] is not a log value
